@@ -156,7 +156,8 @@ def check_call(scn: dict, cf, out: list, grants=()) -> None:
             elif has_budget and a.end is not None:
                 # the condition itself (the window is full), however the library learnt of it
                 b = cfg["budget"]
-                live = sum(c for (sq, t, c) in grants if sq < a.end["seq"] and a.end["t"] - t <= b["window_us"])
+                ref = post[-1] if post else a.end    # up to the moment the stop was reported
+                live = sum(c for (sq, t, c) in grants if sq <= ref["seq"] and ref["t"] - t <= b["window_us"])
                 if live + 1 > b["max"]:
                     holds.add("BUDGET_EXHAUSTED")
             if first_true is not None or decision == "A":
